@@ -555,7 +555,28 @@ pub fn gen_script(rng: &mut Rng, len: usize) -> Vec<Req> {
 
 pub fn run(cfg: &Cfg, rep: &mut Report) {
     rep.rule = "request scripts (1..40 requests drawn from word, words(k), string, bit32, bit64, id, ext_inst_integer, all 56 typed enum/mask requests, set_limit(k in {0,1,2,3,rem,rem+-1,2^31,usize::MAX}), clear_limit, has_limit, limit_reached, offset) on buffers of every length 0..64 and random lengths to 4096 (NUL-rich, ASCII, noise, enumerant words, string-like with invalid UTF-8), replayed against a decoder model written from the property; invariants after every request: offset <= len, multiple of 4, monotone, words consumed since set_limit(n) <= n. distinct_nontrivial = distinct (request kind, outcome kind) pairs observed".into();
-    let n = cfg.n(200_000, 6_000_000);
+    // directed scripts: the limit / string corner cases of a previously repaired defect
+    let mut directed: Vec<(Vec<u8>, Vec<Req>)> = vec![];
+    for len in [0usize, 3, 4, 7, 8, 11, 12, 16] {
+        for lim in [0usize, 1, 2, 3, 4, 5, 1 << 31, usize::MAX / 4, usize::MAX / 4 + 1, usize::MAX] {
+            for nul_at in [None, Some(0usize), Some(2), Some(5), Some(len.saturating_sub(1))] {
+                let mut b = vec![b'a'; len];
+                if let Some(p) = nul_at {
+                    if p < len {
+                        b[p] = 0;
+                    }
+                }
+                directed.push((b.clone(), vec![Req::SetLimit(lim), Req::Str, Req::Offset, Req::LimitReached, Req::Word, Req::ClearLimit, Req::Str]));
+                directed.push((b, vec![Req::Word, Req::SetLimit(lim), Req::Str, Req::Str, Req::Bit64]));
+            }
+        }
+    }
+    let directed_ref = &directed;
+    run_stage(cfg, rep, "directed", directed.len() as u64, |idx, _rng, r| {
+        let (b, script) = &directed_ref[idx as usize];
+        play(b, script, r, &|| crate::util::replay_ref(cfg, "directed", idx));
+    });
+    let n = cfg.n(600_000, 6_000_000);
     run_stage(cfg, rep, "scripts", n, |idx, rng, r| {
         let b = gen_buffer(rng, idx);
         let script = gen_script(rng, b.len());
